@@ -111,7 +111,7 @@ func (f *frame) callCommon(c *ssa.CallCommon, site string, deferred bool) []sval
 		t.cur.Assert(False, "termination/no-recursion/"+callee.Name(), t.fc.Props)
 		t.cur.Cmds[len(t.cur.Cmds)-1].Meta = map[string]string{"pos": t.posString()}
 	}
-	if fc != nil && !fc.Inline {
+	if fc != nil && !fc.Inline && !hasProp(t.fc.InlineCalls, fc.Name) {
 		return f.contractCall(fc, callee, args)
 	}
 	if callee.Pkg == nil || !strings.HasPrefix(callee.Pkg.Pkg.Path(), "github.com/pierrec/lz4") {
@@ -445,6 +445,15 @@ func (f *frame) contractCall(fc *FuncContract, callee *ssa.Function, args []sval
 		env.names[p.Name()] = a
 	}
 	for _, r := range fc.Requires {
+		if r.Kind == "typeinv" {
+			// an invariant of the callee's (encapsulated) type: holds in every state a client can observe
+			t.assumptions["type invariant of "+fc.Pkg+"."+strings.SplitN(fc.Name, ".", 2)[0]+" (established by the zero value, preserved by every method, fields unexported)"] = true
+			continue
+		}
+		if r.Kind == "assumed" {
+			t.assumptions["assumed precondition of "+fc.Pkg+"."+fc.Name+": "+r.Text] = true
+			continue
+		}
 		e := f.specBool(r.E, env)
 		t.cur.Assert(e, "pre/"+site+"/"+r.Label, mergeProps(t.fc.Props, nil))
 	}
@@ -575,6 +584,11 @@ func (f *frame) contractCall(fc *FuncContract, callee *ssa.Function, args []sval
 	}
 	env.post = true
 	for _, e := range fc.Ensures {
+		if e.Kind == "typeinv" && fc.Pkg != t.fc.Pkg {
+			// the representation invariant of another package's type: of no use to a client
+			// (and stated over that package's spec library)
+			continue
+		}
 		t.cur.Assume(f.specBool(e.E, env))
 	}
 	if fc.Trusted {
@@ -722,6 +736,14 @@ func (f *frame) siteAsserts(x *ssa.Call) {
 	for _, a := range t.fc.Asserts {
 		if a.Site == site {
 			t.usedAsserts[a.Label] = true
+			if a.Kind == "rely" {
+				if !t.fc.Concurrent {
+					fail("rely clause outside a goroutine fragment")
+				}
+				t.cur.Assume(f.specBool(a.E, f.bodyEnv(false)))
+				t.assumptions["rely condition of fragment "+t.fc.Pkg+"."+t.fc.Name+": "+a.Text] = true
+				continue
+			}
 			t.cur.Assert(f.specBool(a.E, f.bodyEnv(false)), "assert/"+a.Label, propsOr(a.Props, t.fc.Props))
 		}
 	}
